@@ -34,6 +34,7 @@ ADDR = "src/addr.rs"
 PAGE = "src/structures/paging/page.rs"
 FRAME = "src/structures/paging/frame.rs"
 PT = "src/structures/paging/page_table.rs"
+REC = "src/structures/paging/mapper/recursive_page_table.rs"
 
 # Erased newtypes: nominal type -> underlying integer type.
 NEWTYPES = {
@@ -61,12 +62,13 @@ class T:
     `owner` the nominal type whose method it is; `key` the name used for dispatch (method name, or operator name +
     right-hand type for operator traits); `size` fixes `S::SIZE` for impls on a concrete page size."""
 
-    def __init__(self, file, impl, fn, owner=None, key=None, lean=None, size=None, call_size=None):
+    def __init__(self, file, impl, fn, owner=None, key=None, lean=None, size=None, call_size=None, generic=None):
         self.file, self.impl, self.fn, self.owner = file, impl, fn, owner
         self.key = key or fn
         self.lean = lean or ((owner + "_" if owner else "") + self.key)
         self.size, self.call_size = size, call_size
-        self.generic = impl is not None and impl.startswith("<S:")
+        # `generic`: the function has a page-size type parameter `S` (impl-level, or its own for free functions)
+        self.generic = generic if generic is not None else (impl is not None and impl.startswith("<S:"))
 
 
 GS = "<S: PageSize> "
@@ -197,6 +199,10 @@ TARGETS = [
     T(FRAME, GS + "PhysFrameRangeInclusive<S>", "len", "PhysFrameRangeInclusive"),
     T(FRAME, GS + "PhysFrameRangeInclusive<S>", "size", "PhysFrameRangeInclusive"),
     T(FRAME, GS + "Iterator for PhysFrameRangeInclusive<S>", "next", "PhysFrameRangeInclusive"),
+    # recursive_page_table.rs: the addresses through which the recursive mapper reaches a page's tables (C20)
+    T(REC, None, "p3_page", generic=True, lean="rec_p3_page"),
+    T(REC, None, "p2_page", generic=True, lean="rec_p2_page"),
+    T(REC, None, "p1_page", size="Size4KiB", lean="rec_p1_page"),
 ]
 
 TOK = re.compile(r"""\s*(?:(//[^\n]*|/\*.*?\*/)|(0x[0-9a-fA-F_]+|0b[01_]+|0o[0-7_]+|[0-9][0-9_]*)(?:_?([ui](?:8|16|32|64|size)))?|([A-Za-z_][A-Za-z0-9_]*!?)|("(?:[^"\\]|\\.)*")|(\.\.=|\.\.|::|->|=>|==|!=|<=|>=|<<=|>>=|<<|>>|&&|\|\||[+\-*/%&|^]=|[{}()\[\];,.:?!&|^+\-*/%<>=#'@]))""", re.S)
@@ -627,7 +633,7 @@ def find_fn(src, impl, name):
     src = strip_comments(src)
     m = None
     if impl is None:
-        m = re.search(r"^pub(?:\([a-z]+\))?\s+(?:const\s+)?(?:unsafe\s+)?fn\s+" + re.escape(name) + r"\s*(?:<[^>]*>)?\s*\(", src, re.M)
+        m = re.search(r"^(?:pub(?:\([a-z]+\))?\s+)?(?:const\s+)?(?:unsafe\s+)?fn\s+" + re.escape(name) + r"\s*(?:<[^>]*>)?\s*\(", src, re.M)
     else:
         bodies = find_impl_bodies(src, impl)
         if not bodies:
